@@ -29,6 +29,7 @@ type HarnessSpec struct {
 	Track     bool   `json:"track"`   // ghost write tracking
 	Allocs    bool   `json:"allocs"`  // ghost allocation tracking
 	PanicObls bool   `json:"panicobls"` // list every implicit no-panic check of own code as an obligation
+	Race      bool   `json:"race"`  // build the native replay with the race detector
 	Eager     bool   `json:"eager"` // check feasibility at every branch (default: lazy forking)
 	KeepGeom  bool   `json:"keepgeom"` // do not merge byte windows of different concrete geometry
 	Params    map[string]int `json:"params"` // harness-visible bounds (ndParam)
@@ -335,8 +336,11 @@ type replayOutcome struct {
 	Panicked string
 	AssumeKO bool
 	Done     bool
+	Race     bool // the race detector reported a data race while this case ran
 	OOM      bool // the replay process died with an out-of-memory error inside this case
 }
+
+var replayRace bool
 
 func nativeReplay(verifDir, pkg string, cases []replayCase) (map[string]*replayOutcome, string, error) {
 	res := map[string]*replayOutcome{}
@@ -369,7 +373,11 @@ func nativeReplay(verifDir, pkg string, cases []replayCase) (map[string]*replayO
 	// allocation kills only the replay process (reported as such), never the machine
 	bin := filepath.Join(scratchDir(verifDir), "out", "replay", fmt.Sprintf("replay-%d-%d.test", os.Getpid(), time.Now().UnixNano()))
 	defer os.Remove(bin)
-	build := exec.Command("go", "test", "-c", "-tags", "verif", "-overlay", ovPath, "-vet=off", "-o", bin, target)
+	bargs := []string{"test", "-c", "-tags", "verif", "-overlay", ovPath, "-vet=off", "-o", bin}
+	if replayRace {
+		bargs = append(bargs, "-race")
+	}
+	build := exec.Command("go", append(bargs, target)...)
 	build.Dir = repoDir
 	build.Env = env
 	if bo, err := build.CombinedOutput(); err != nil {
@@ -392,6 +400,8 @@ func nativeReplay(verifDir, pkg string, cases []replayCase) (map[string]*replayO
 			cur.Failed = append(cur.Failed, strings.TrimPrefix(line, "VERIF-FAIL "))
 		case strings.HasPrefix(line, "VERIF-COVER "):
 			cur.Covers = append(cur.Covers, strings.TrimPrefix(line, "VERIF-COVER "))
+		case strings.Contains(line, "DATA RACE"):
+			cur.Race = true
 		case strings.HasPrefix(line, "VERIF-PANIC "):
 			cur.Panicked = strings.TrimPrefix(line, "VERIF-PANIC ")
 		case line == "VERIF-ASSUME-FAILED":
@@ -449,6 +459,7 @@ func runHarness(verifDir string, spec HarnessSpec, seed int, thorough bool) (*Ha
 		e.smtDir = filepath.Join(scratchDir(verifDir), "out", "smt")
 	}
 	e.loadKnownFindings(verifDir, spec.Name)
+	replayRace = spec.Race
 	func() {
 		defer func() {
 			if r := recover(); r != nil {
@@ -512,6 +523,9 @@ func runHarness(verifDir string, spec HarnessSpec, seed int, thorough bool) (*Ha
 			}
 			ro := rr[fmt.Sprintf("ob%d", i)]
 			switch {
+			case ro != nil && ro.Race && strings.HasPrefix(ob.ID, "c17-"):
+				ob.Confirmd = true
+				ob.Note = "native run: the Go race detector reported a data race"
 			case ro != nil && ro.OOM && strings.HasPrefix(ob.ID, "c06-"):
 				ob.Confirmd = true
 				ob.Note = "native run died with an unrecoverable out-of-memory error (address space limited to 8 GiB)"
